@@ -42,10 +42,10 @@ Definition run_entry (x : bool * nat * list (list cand)) : ext * list nat :=
 Definition comb_f (w : list (nat * nat * Z)) (v1 v2 : ext) (a b : nat) : ext * option nat :=
   let extra := match find (fun x => Nat.eqb (fst (fst x)) a && Nat.eqb (snd (fst x)) b) w with Some (_, z) => z | None => 0%Z end in
   (ext_add (ext_add v1 v2) (Fin extra), Some (a * 10 + b)%nat).
-Definition run_combine (x : bool * nat * list cand * list cand * list (nat * nat * Z)) : ext * list nat :=
-  let '(m, r, h1, h2, w) := x in
+Definition run_combine (x : bool * nat * nat * list cand * list cand * list (nat * nat * Z)) : ext * list nat :=
+  let '(m, r, r2, h1, h2, w) := x in
   let e1 := update Nat.eqb (mpol m) (rpol r) (default_entry (mpol m)) (map cv h1) in
-  let e2 := update Nat.eqb (mpol m) (rpol r) (default_entry (mpol m)) (map cv h2) in
+  let e2 := update Nat.eqb (mpol m) (rpol r2) (default_entry (mpol m)) (map cv h2) in
   show (combine Nat.eqb (mpol m) (rpol r) e1 e2 (comb_f w (val e1) (val e2))).
 Definition run_table (x : bool * nat * list (option nat) * list (list nat * list cand) * list (list nat))
   : option (list (option (ext * list nat))) :=
@@ -209,25 +209,27 @@ def batches(ctx):
         w = [[a, b, rng.choice([0, 0, 1, -1, 2])] for a in (1, 2, 3) for b in (1, 2, 3)]
         ccases.append({"min": rng.random() < 0.7, "ret": rng.choice([1, 2, 2, 2, 0]), "h1": mk(), "h2": mk(), "w": w,
                        "hold": [rng.choice([0, 0, 1, 2]), rng.choice([0, 0, 1, 2])]})
+        # the other operand may come with another retention policy (an ANY entry combined with an ALL one)
+        ccases[-1]["ret2"] = ccases[-1]["ret"] if rng.random() < 0.6 else rng.choice([0, 1, 2])
 
-    def operand(c, hist, kind):
+    def operand(c, hist, kind, ret=None):
         """an operand of combine: a standalone Entry (0), or the cell of a list (1) / dict (2) table reached through
         Table[...] (an EntryProxy).  A cell that only ever received infinite candidates is never written, so the cell
         holders are used only when the history holds a finite value (one batch: the cell then reads as the entry)."""
         cands = [D.Candidate(_val(v, inf), t) for v, t in hist]
         if kind and any(v not in (INF, NINF) for v, _ in hist):
-            T = D.Table((D.ListDimension(3),) if kind == 1 else (D.DictDimension(),), MP[c["min"]], RP[c["ret"]])
+            T = D.Table((D.ListDimension(3),) if kind == 1 else (D.DictDimension(),), MP[c["min"]], RP[c["ret"] if ret is None else ret])
             cell = T[1] if kind == 1 else T["k"]
             cell.update(*cands)
             return T[1] if kind == 1 else T["k"]
-        e = D.Entry(MP[c["min"]], RP[c["ret"]])
+        e = D.Entry(MP[c["min"]], RP[c["ret"] if ret is None else ret])
         e.update(*cands)
         return e
 
     def impl_combine(c):
         hold = c.get("hold", [0, 0])
         e1 = operand(c, c["h1"], hold[0])
-        e2 = operand(c, c["h2"], hold[1])
+        e2 = operand(c, c["h2"], hold[1], c.get("ret2", c["ret"]))
         w = {(a, b): z for a, b, z in c["w"]}
         r = e1.combine(e2, lambda l, r_: D.Candidate(l.value + r_.value + w[(TAGS[l.info], TAGS[r_.info])], (l.info, r_.info)))
         tags = sorted(TAGS[a] * 10 + TAGS[b] for a, b in r.infos())
@@ -236,7 +238,7 @@ def batches(ctx):
     def oracle_combine(c, r):
         # optimum over pairs of *retained* tags of the two operands (computed from the operands the implementation built)
         e1 = D.Entry(MP[c["min"]], RP[c["ret"]]); e1.update(*[D.Candidate(_val(v, inf), t) for v, t in c["h1"]])
-        e2 = D.Entry(MP[c["min"]], RP[c["ret"]]); e2.update(*[D.Candidate(_val(v, inf), t) for v, t in c["h2"]])
+        e2 = D.Entry(MP[c["min"]], RP[c.get("ret2", c["ret"])]); e2.update(*[D.Candidate(_val(v, inf), t) for v, t in c["h2"]])
         w = {(a, b): z for a, b, z in c["w"]}
         pairs = [[_unval(e1.value() + e2.value() + w[(TAGS[a], TAGS[b])], inf), None] for a in e1.infos() for b in e2.infos()]
         tagged = []
@@ -258,9 +260,9 @@ def batches(ctx):
 
     yield Batch(
         name="combine", header=HEADER, run="run_combine", eqb="show_eqb",
-        ty_in="bool * nat * list cand * list cand * list (nat * nat * Z)", ty_out="ext * list nat",
+        ty_in="bool * nat * nat * list cand * list cand * list (nat * nat * Z)", ty_out="ext * list nat",
         cases=ccases, impl=impl_combine,
-        enc_in=lambda c: cpair(cbool(c["min"]), cnat(c["ret"]), clist(enc_cand(x) for x in c["h1"]), clist(enc_cand(x) for x in c["h2"]),
+        enc_in=lambda c: cpair(cbool(c["min"]), cnat(c["ret"]), cnat(c.get("ret2", c["ret"])), clist(enc_cand(x) for x in c["h1"]), clist(enc_cand(x) for x in c["h2"]),
                                clist(cpair(cnat(a), cnat(b), cZ(z)) for a, b, z in c["w"])),
         enc_out=lambda c, r: enc_show(r),
         oracle=oracle_combine,
